@@ -346,7 +346,8 @@ class Statement(object):
         if self.code_pkg.additional_needs_resolution:
             if self.operand.is_indexed() and self.operand.left and self.operand.left.is_address_expression():
                 try:
-                    relative_address = self.operand.left.calculate_address_offset(statements).int
+                    offset_address = self.operand.left.calculate_address_offset(statements)
+                    relative_address = -offset_address.int if offset_address.is_negative() else offset_address.int
                 except (ValueTypeError, ZeroDivisionError) as error:
                     raise TranslationError(str(error), self)
             else:
